@@ -8,7 +8,7 @@
 From Coq Require Import String.
 From Coq Require Import List Arith ZArith.
 Import ListNotations.
-From YP Require Import Base.Str Term.Term Term.Show Engine.Db Engine.DbCursor Engine.DbCursorThms Engine.DbSpec Engine.DbTotal Engine.DbFacts Engine.DbProg Engine.DbProgThms Engine.RunDbProg Engine.DbProgInv Engine.DbProgSim Engine.DbOpen.
+From YP Require Import Base.Str Term.Term Term.Show Engine.Db Engine.DbCursor Engine.DbCursorThms Engine.DbClear Engine.DbSpec Engine.DbTotal Engine.DbFacts Engine.DbProg Engine.DbProgThms Engine.RunDbProg Engine.DbProgInv Engine.DbProgSim Engine.DbOpen.
 
 (* For every history of asserta / assertz / assert_fact / query (all answers, or j answers then
    close) / retract (j answers requested, then closed; j larger than the number of matches = run to
@@ -215,3 +215,37 @@ Theorem C07_compiled_run_is_cursor_history : forall uf prog, prog_ok prog -> for
   exists evs st' outs, run (match_fact uf) st evs = Some (st', outs) /\ Rst g' st' /\ tr_eqv tr (dbouts outs).
 Proof. exact prog_run_is_cursor_history. Qed.
 Print Assumptions C07_compiled_run_is_cursor_history.
+
+(* round 4 - clear() at any point of a history, also while queries and retracts are suspended (Engine/DbClear.v).
+   "each answer of retract removes exactly the first remaining matching fact ... clear removes everything": at every
+   point of every history (any interleaving, any number of suspended cursors, clear() anywhere) an answer of a retract
+   cursor returns an Answer that IS stored under the cursor's key at that moment, and afterwards it is stored nowhere *)
+Theorem C07_retract_answer_is_stored : forall mt evs s s1 outs1 e s2 k i a,
+  ids_ok (sdb s) (snext s) -> run mt s evs = Some (s1, outs1) -> step mt s1 e = Some (s2, ORet k i a) ->
+  In i (map fid (sdb s1 k)) /\ (forall k', ~ In i (map fid (sdb s2 k'))).
+Proof. exact retract_answer_is_stored. Qed.
+Print Assumptions C07_retract_answer_is_stored.
+
+(* after clear(), as long as nothing is asserted: no retract cursor - suspended in whatever snapshot - has an answer, and
+   every predicate stays empty, whatever else is resumed, started, closed, retracted *)
+Theorem C07_clear_then_resume : forall mt evs s s' outs,
+  forallb (fun e => negb (is_assert e)) evs = true -> run mt s (EClear :: evs) = Some (s', outs) ->
+  db_empty s' /\ forallb (fun o => negb (is_ret o)) outs = true.
+Proof. exact clear_then_resume. Qed.
+Print Assumptions C07_clear_then_resume.
+
+(* non-vacuity: p(1), p(2), p(3); first answer of retract(p(X)) (X = 1); a query is suspended at p(2); clear(); the same
+   facts are asserted again (new Answers); the retract, resumed, has no further answer and the new facts stay; the query
+   goes on in the list it read (3, then the end) *)
+Example C07_clear_while_suspended :
+  let p := d "p"%string in
+  let f x := TFun p [TInt x] in
+  let evs := [EAssert false (f 1%Z); EAssert false (f 2%Z); EAssert false (f 3%Z);
+              EStart 0 (QRetract (TFun p [TVar 0])); ENext 0; EStart 1 (QQuery p [TVar 0]); ENext 1;
+              EClear; EAssert false (f 2%Z); EAssert false (f 3%Z); ENext 0; ENext 0; ENext 1; ENext 1] in
+  exists s' outs, run (match_fact 20) init evs = Some (s', outs) /\
+    skipn 4 outs = [ORet (p, 1) 0 [TInt 1%Z]; OStart; OAns 1 [TInt 2%Z]; OClr;
+                    OIns (p, 1) false (mkfact 3 [TInt 2%Z]); OIns (p, 1) false (mkfact 4 [TInt 3%Z]);
+                    OEnd; OEnd; OAns 2 [TInt 3%Z]; OEnd] /\
+    map fid (sdb s' (p, 1)) = [3; 4].
+Proof. eexists. eexists. split; [vm_compute; reflexivity|]. repeat split. Qed.
